@@ -13,6 +13,10 @@ pub struct LintGen<'t, 'a> {
     budget: i32,
 }
 
+fn vec_first(e: Expr) -> Expr {
+    e
+}
+
 impl<'t, 'a> LintGen<'t, 'a> {
     pub fn new(t: &'t mut Tape<'a>) -> Self {
         let vars = names::distinct(t, 6);
@@ -79,19 +83,32 @@ impl<'t, 'a> LintGen<'t, 'a> {
             }
             _ => {
                 // other literal kinds, logic, comparisons
-                match self.t.pick(6) {
+                match self.t.pick(14) {
                     0 => lit(Lit::Bool(true)),
                     1 => lit(Lit::Null),
                     2 => lit(Lit::Mysterious),
                     3 => un(UnOp::Not, num(5.0)),
                     4 => bin(BinOp::Less, num(1.0), num(2.0)),
-                    _ => bin(BinOp::Plus, strlit("a"), strlit("b")),
+                    5 => bin(BinOp::Plus, strlit("a"), strlit("b")),
+                    // pops and elements of literals: never constants (and runtime errors), whatever sits inside
+                    6 => Expr::Primary(Primary::Pop(Box::new(Primary::Lit(Lit::Num(5.0))))),
+                    7 => bin(BinOp::Multiply, num(2.0), vec_first(Expr::Primary(Primary::Pop(Box::new(Primary::Lit(Lit::Num(5.0))))))),
+                    8 => Expr::Primary(Primary::Subscript(Box::new(Primary::Lit(Lit::Num(5.0))), Box::new(Primary::Lit(Lit::Num(1.0))))),
+                    9 => bin(BinOp::Plus, num(1.0), Expr::Primary(Primary::Subscript(Box::new(Primary::Lit(Lit::Num(7.0))), Box::new(Primary::Lit(Lit::Num(7.0)))))),
+                    10 => Expr::Primary(Primary::Pop(Box::new(Primary::Lit(Lit::Str("abc".into()))))),
+                    11 => Expr::Primary(Primary::Subscript(Box::new(Primary::Lit(Lit::Str("abc".into()))), Box::new(Primary::Lit(Lit::Num(1.0))))),
+                    12 => un(UnOp::Not, un(UnOp::Not, num(5.0))),
+                    _ => un(UnOp::Minus, un(UnOp::Minus, num(5.0))),
                 }
             }
         }
     }
 
     fn assignment_like(&mut self) -> Stmt {
+        self.assignment_like_impl()
+    }
+
+    fn assignment_like_impl(&mut self) -> Stmt {
         match self.t.weighted(&[28, 10, 12, 8, 8, 16, 6, 6, 6]) {
             0 => {
                 let dest = self.target();
@@ -166,8 +183,9 @@ impl<'t, 'a> LintGen<'t, 'a> {
                 0 => s.push(self.assignment_like()),
                 1 => {
                     let cond = self.rhs(Lead::Any);
-                    let then = self.block(depth - 1, false);
-                    let els = if !fn_body && self.t.chance(1, 2) { Some(self.block(depth - 1, false)) } else { None };
+                    // now and then an empty branch next to a full one
+                    let then = if self.t.chance(1, 6) { vec![] } else { self.block(depth - 1, false) };
+                    let els = if !fn_body && self.t.chance(1, 2) { Some(if self.t.chance(1, 8) { vec![] } else { self.block(depth - 1, false) }) } else { None };
                     s.push(Stmt::If { cond, then, els });
                 }
                 2 => {
